@@ -53,6 +53,8 @@ module Ringasis = struct
     | _ -> if small (nwords m0) (nwords m1) then Some (sval (ibig_mul_asis w64 ts tk chunk sq s0 (typed m0) s1 (typed m1))) else None
   let sqr (x : Zar.t) : Zar.t result option =
     if small (nwords x) (nwords x) then Some (uval (repr_sqr w64 ts tk sq (typed x))) else None
+  let cubic s (m : Zar.t) : Zar.t result option =
+    if small (nwords m) (2 * nwords m) then Some (sval (ibig_cubic_asis w64 ts tk chunk sq s (typed m))) else None
   let pow s (m : Zar.t) (e : Zar.t) : Zar.t result option =
     let rw = nwords m * Zar.to_int e in
     if small rw (rw / 4) then Some (sval (ibig_pow_asis w64 ts tk chunk sq s (typed m) e)) else None
@@ -118,7 +120,8 @@ let judge op args got =
       expect_val ~extra:("cls=" ^ cls_of x ^ " " ^ fido (Ringasis.sqr (Zar.abs x)) got) (sqr_spec x) got
   | "ucubic" | "icubic" ->
       let x = a 0 in
-      expect_val ~extra:("cls=" ^ cls_of x) (cubic_spec x) got
+      let s, m = sm x in
+      expect_val ~extra:("cls=" ^ cls_of x ^ " " ^ fido (Ringasis.cubic s m) got) (cubic_spec x) got
   | "upow" | "ipow" ->
       let x = a 0 and e = n 1 in
       let s, m = sm x in
